@@ -81,7 +81,7 @@ CLAIMS = {
              "non-nil fact attributed to an edge is true on that edge; every leaf condition left in the CFG is canonical (`v == nil` or an opaque atom) and each canonical nil test is recognised by "
              "AddNilCheck on exactly its non-nil edge.",
         note="Kernel level: recognition and branch attribution (AddProduction is a recorder under symx; no native re-run for those runs). Source level (P01.A2): every program of the C01 grammar whose dereferences "
-             "are all nil-checked - direct guards, early-return guards, repairs, across an opaque if - gets no diagnostic from the real pipeline. Loops and switch-on-nil at source level are outside. " + PIPE_NOTE,
+             "are all nil-checked - direct guards, early-return guards, repairs, across an opaque if, loops, switch-on-nil - gets no diagnostic from the real pipeline, and in EVERY program no diagnostic sits on a line without an unchecked dereference (P01.A5). " + PIPE_NOTE,
     ),
     "C17": dict(
         text="On every explored path the driver-shared CFG (blocks, Nodes/Succs backing arrays) and AST are byte-for-byte unchanged after preprocess.CFG + blocksAndPreprocessingFromCFG + AddNilCheck, "
